@@ -84,6 +84,34 @@ pub fn c08a_css_anchors() {
     kani::cover!(true, "end");
 }
 
+/// (vi) the "possibly compatible" unit classes used by calc()/min()/max()/clamp() (dumped through the real
+/// `known_compatibilities_by_unit`): an equivalence on its members that contains every CSS conversion class and
+/// never relates two different conversion classes (length / angle / time / frequency / resolution).
+#[kani::proof]
+#[kani::unwind(2)]
+pub fn c08a_known_compat_classes() {
+    use crate::gen_units::known_compatible as k;
+    let a = any_unit_index();
+    let b = any_unit_index();
+    let c = any_unit_index();
+    kani::assume(a < NU && b < NU && c < NU);
+    assert!(k(a, b) == k(b, a), "C08/C16: known-compatibility of units is not symmetric");
+    if k(a, b) {
+        assert!(k(a, a) && k(b, b), "C08/C16: a unit is missing from its own compatibility class");
+        if k(b, c) { assert!(k(a, c), "C08/C16: known-compatibility classes overlap"); }
+        kani::cover!(a != b, "compatible_pair");
+    }
+    let (ca, cb) = (css_class(a), css_class(b));
+    if ca != 0 && ca == cb {
+        assert!(k(a, b), "C08/C16: two convertible units are not known-compatible (calc() would reject them)");
+    }
+    if ca != 0 && cb != 0 && ca != cb {
+        assert!(!k(a, b), "C08/C16: units of different conversion classes are known-compatible (calc() would accept them)");
+        kani::cover!(true, "incompatible_pair");
+    }
+    kani::cover!(true, "end");
+}
+
 // ---- C08b: + - % < on numbers with units, through the evaluator's operator kernels ----
 
 use crate::util::{fixed_random_state, fmt_stub, is_stubbed, span, yes};
@@ -245,3 +273,50 @@ oinst!(c07c_order_px_em, 0, 7, 0);
 oinst!(c07c_le_px_px, 0, 0, 1);
 oinst!(c07c_ge_px_px, 0, 0, 2);
 oinst!(c07c_le_in_px, 2, 0, 1);
+
+/// The ordering kernel itself (`Value::cmp`): its verdict must agree with `==` (Equal exactly when `==` holds).
+pub fn cmp_check<const UA: u8, const UB: u8>() {
+    let (i, j): (usize, usize) = (kani::any(), kani::any());
+    kani::assume(i < 6 && j < 6);
+    let (v, w) = (dim(MAGS[i], UA), dim(MAGS[j], UB));
+    let r = v.cmp(&w, span(4), BinaryOp::LessThan);
+    let comparable = UA == UB || UA == NONE || UB == NONE || (css_class(UA) != 0 && css_class(UA) == css_class(UB));
+    match &r {
+        Err(_) => { assert!(!comparable, "C08: ordering convertible numbers failed"); kani::cover!(true, "rejected"); }
+        Ok(o) => {
+            assert!(comparable, "C08: ordering numbers with inconvertible units must be an error");
+            assert!(o.is_some(), "C07: ordering of two non-NaN numbers is undefined");
+            if UA == UB || (UA != NONE && UB != NONE) {
+                let eq = value_eq(&v, &w);
+                assert!((*o == Some(core::cmp::Ordering::Equal)) == eq,
+                    "C07: ordering and == disagree (numbers within 1e-11 are equal, so neither < nor >)");
+                kani::cover!(eq && i != j, "fuzzy_equal_pair");
+            }
+            if UA == UB {
+                if *o == Some(core::cmp::Ordering::Less) { assert!(MAGS[i] < MAGS[j], "C07: a < b reported although a >= b"); }
+                if *o == Some(core::cmp::Ordering::Greater) { assert!(MAGS[i] > MAGS[j], "C07: a > b reported although a <= b"); }
+            }
+            kani::cover!(*o == Some(core::cmp::Ordering::Less), "less");
+        }
+    }
+    kani::cover!(true, "end");
+    core::mem::forget(r);
+    core::mem::forget((v, w));
+}
+
+macro_rules! cminst {
+    ($name:ident, $a:expr, $b:expr) => {
+        #[kani::proof]
+        #[kani::unwind(3)]
+        #[kani::stub(alloc::fmt::format, fmt_stub)]
+        #[kani::stub(f64::powi, powi_stub)]
+        #[kani::stub(grass_compiler::sass_value::Number::convert, convert_stub)]
+        pub fn $name() { cmp_check::<$a, $b>() }
+    };
+}
+cminst!(c07c_cmp_px_px, 0, 0);
+cminst!(c07c_cmp_none_none, 34, 34);
+cminst!(c07c_cmp_in_px, 2, 0);
+cminst!(c07c_cmp_px_in, 0, 2);
+cminst!(c07c_cmp_px_none, 0, 34);
+cminst!(c07c_cmp_px_em, 0, 7);
